@@ -171,6 +171,7 @@ theorem step_good (sp : Bool) (s : St R) (g : Good s) (op : Op R) : Good (step A
         by_contra hc; exact hbad (by simp [hc])
       exact onPassed_good s _ hs g
   | sysMem x => exact g
+  | config sc iv => exact g
   | exit id =>
     simp only [step]
     split_ifs with hbad
@@ -212,6 +213,7 @@ theorem step_model_eq_spec (s : St R) (g : Good s) (op : Op R) : step A false s 
   | exit id => rfl
   | exitErr id => rfl
   | sysMem x => rfl
+  | config sc iv => rfl
   | entry id inbound batch =>
     have hb : s.started = true → blockedBy A false s inbound = blockedBy A true s inbound := by
       intro hs
@@ -384,6 +386,7 @@ theorem step_rules (sp : Bool) (s : St R) (op : Op R) :
   | sysLoad x => rfl
   | sysCpu x => rfl
   | sysMem x => rfl
+  | config sc iv => rfl
   | clock t => simp only [step]; split_ifs <;> rfl
   | entry id inbound batch =>
     simp only [step, onBlocked, onPassed]
@@ -421,6 +424,7 @@ theorem step_model_eq_spec_of (s : St R) (g : Good s) (h : RulesOk A s) (op : Op
   | exit id => rfl
   | exitErr id => rfl
   | sysMem x => rfl
+  | config sc iv => rfl
   | entry id inbound batch =>
     have hb : s.started = true → blockedBy A false s inbound = blockedBy A true s inbound := by
       intro hs
@@ -444,6 +448,29 @@ theorem run_model_eq_spec_of (hA : LoadSound A) (s : St R) (g : Good s) (h : Rul
 
 /-- memory usage is no input of system protection: injecting it changes nothing (`SetSystemMemoryUsage`) -/
 theorem sysMem_irrelevant (sp : Bool) (s : St R) (x : Int) : step A sp s (.sysMem x) = (s, .none) := rfl
+
+/-- the configured metric statistic shape is no input either: the inbound node was created at package
+    initialisation with the default shape and keeps it (as-is behaviour of `stat.InboundNode()`) -/
+theorem config_irrelevant (sp : Bool) (s : St R) (sc iv : Nat) : step A sp s (.config sc iv) = (s, .none) := rfl
+
+/-- **outbound traffic leaves no trace**: an outbound entry on a fresh id followed by its exit is admitted and
+    gives back exactly the state before — whatever rules are loaded, whatever the readings (op `many`) -/
+theorem outbound_roundtrip (sp : Bool) (s : St R) (hs : s.started = true) (id : String) (batch : Nat)
+    (hfresh : s.live.any (·.id == id) = false) :
+    (step A sp s (.entry id false batch)).2 = .pass ∧
+    (step A sp (step A sp s (.entry id false batch)).1 (.exit id)).1 = s := by
+  have hb : (!s.started || s.live.any (·.id == id)) = false := by simp [hs, hfresh]
+  have hnb : blockedBy A sp s false = false := by
+    cases sp <;> simp [blockedBy, check, specBlocked]
+  have h1 : step A sp s (.entry id false batch) =
+      ({ s with live := { id := id, inbound := false, start := s.now, batch := batch } :: s.live }, .pass) := by
+    simp [step, hb, hnb, onPassed]
+  rw [h1]
+  refine ⟨rfl, ?_⟩
+  simp only [step, hs, Bool.not_true, Bool.false_eq_true, if_false, List.find?_cons, beq_self_eq_true, onExit,
+    List.eraseP_cons_of_pos]
+  cases s
+  simp_all
 
 /-- `system.GetRules()` after `LoadRules(rs)`: exactly the valid elements of `rs` (nil pointers are invalid) -/
 theorem mem_loadRules (rs : List (Rule R)) (r : Rule R) : r ∈ loadRules A rs ↔ r ∈ rs ∧ validRule A r = true := by
